@@ -401,7 +401,21 @@ std::string sqf::fileio::impl_default::read_file(sqf::runtime::fileio::pathinfo 
             std::transform(pbo_path.begin(), pbo_path.end(), pbo_path.begin(), [](char c) -> char { return c == '/' ? '\\' : c; });
 
             rvutils::pbo::pbofile::reader reader;
-            if (res->second.read(pbo_path, reader))
+            bool opened = res->second.read(pbo_path, reader);
+            if (!opened)
+            { // the archive may store the name with forward slashes
+                for (auto& file_desc : res->second.files())
+                {
+                    auto name = file_desc.name;
+                    std::replace(name.begin(), name.end(), '/', '\\');
+                    if (name == pbo_path)
+                    {
+                        opened = res->second.read(file_desc.name, reader);
+                        break;
+                    }
+                }
+            }
+            if (opened)
             {
                 std::string str;
                 str.resize(reader.descriptor().size);
